@@ -88,3 +88,13 @@ package tasks
 //@   trace (*WaitGroup).Add as WGADD
 //@   at_call (*WaitGroup).Add requires $1 == 1
 //@   trace_ensures true : WGADD
+
+// Wait inspects the tasks that exist once every accepted task has finished: the task table is
+// locked and read only after the manager's wait group has drained, so a task submitted while
+// Wait was blocked is inspected (and its failure reported) like any other
+//@ func (*TaskManager).Wait [C14]
+//@   layers contract trace
+//@   requires manager != nil
+//@   trace (*WaitGroup).Wait as DRAINED
+//@   trace (*RWMutex).RLock as RLOCK
+//@   loop 1 trace_entry true : ^DRAINED RLOCK $
